@@ -9,6 +9,9 @@ import (
 	"sync"
 	"time"
 
+	ds "github.com/ipfs/go-datastore"
+	"github.com/ipfs/go-datastore/namespace"
+	dssync "github.com/ipfs/go-datastore/sync"
 	"github.com/ipfs/go-libdht/kad/key"
 	"github.com/libp2p/go-libp2p/core/peer"
 	ma "github.com/multiformats/go-multiaddr"
@@ -16,6 +19,7 @@ import (
 
 	pb "github.com/libp2p/go-libp2p-kad-dht/pb"
 	"github.com/libp2p/go-libp2p-kad-dht/provider/internal/keyspace"
+	"github.com/libp2p/go-libp2p-kad-dht/provider/keystore"
 	kb "github.com/libp2p/go-libp2p-kbucket"
 )
 
@@ -194,14 +198,25 @@ func VfSweepScenario() {
 	interval := time.Hour
 	maxDelay := 10 * time.Minute
 	offlineDelay := 30 * time.Minute
-	prov, perr := New(
+	event := vfChoose("event", vfParam("EVENTS"))
+	opts := []Option{
 		WithReprovideInterval(interval), WithMaxReprovideDelay(maxDelay), WithReplicationFactor(r),
 		WithOfflineDelay(offlineDelay), WithConnectivityCheckOnlineInterval(time.Minute),
 		WithMaxWorkers(2), WithDedicatedBurstWorkers(1), WithDedicatedPeriodicWorkers(1), WithMaxProvideConnsPerWorker(2),
 		WithPeerID(self), WithRouter(sw), WithMessageSender(log),
 		WithSelfAddrs(func() []ma.Multiaddr { return []ma.Multiaddr{addr} }),
 		WithAddLocalRecord(func(context.Context, mh.Multihash) error { return nil }),
-	)
+	}
+	var restartKs keystore.Keystore
+	if event == 7 {
+		// the restart scenario needs a datastore and a keystore that outlive the provider
+		dstore := dssync.MutexWrap(ds.NewMapDatastore())
+		ks, kerr := keystore.NewKeystore(namespace.Wrap(dstore, ds.NewKey("keystore")))
+		vfAssert(kerr == nil, "sweep/setup")
+		restartKs = ks
+		opts = append(opts, WithDatastore(dstore), WithKeystore(ks))
+	}
+	prov, perr := New(opts...)
 	vfAssert(perr == nil && prov != nil, "sweep/constructor")
 	vfWaitIdle()
 	vfAssert(prov.connectivity.IsOnline(), "sweep/comes-online")
@@ -258,7 +273,7 @@ func VfSweepScenario() {
 			check(k, from, time.Now(), "sweep/kept-key-is-readvertised-to-its-r-nearest-peers-within-interval-plus-delay")
 		}
 	}
-	switch vfChoose("event", vfParam("EVENTS")) {
+	switch event {
 	case 0:
 	case 1: // stop providing the first key
 		vfAssert(prov.StopProviding(kept[0]) == nil, "sweep/stop-providing")
@@ -336,6 +351,27 @@ func VfSweepScenario() {
 		vfWaitIdle()
 		check(k3, from, time.Now(), "sweep/provide-once-key-is-advertised-to-its-r-nearest-peers")
 		once = append(once, k3)
+	case 7: // Close with work still queued (the burst worker is held by a slow provide), then a restart
+		kSlow := vfKeyWithBits("10", 90)
+		log.slowKey = string(kSlow)
+		vfAssert(prov.ProvideOnce(kSlow) == nil, "sweep/provide-once")
+		vfAdvance(time.Second)
+		// a provide-once key: nothing but the persisted queue remembers it
+		k2 := vfKeyWithBits(vfBitsOf("queued.bits", 2), 91)
+		vfAssert(prov.ProvideOnce(k2) == nil, "sweep/provide-once")
+		vfAdvance(time.Second)
+		vfAssert(prov.Close() == nil, "sweep/close")
+		vfAdvance(time.Minute)
+		vfWaitIdle()
+		log.slowKey = ""
+		from := past()
+		prov2, perr2 := New(append(opts, WithResumeCycle(true))...)
+		vfAssert(perr2 == nil && prov2 != nil, "sweep/constructor-after-restart")
+		prov = prov2
+		vfAdvance(15 * time.Minute)
+		vfWaitIdle()
+		check(k2, from, time.Now(), "sweep/work-queued-at-close-is-resumed-after-a-restart")
+		once = append(once, kSlow, k2)
 	}
 
 	C := vfParam("CYCLES")
@@ -372,6 +408,9 @@ func VfSweepScenario() {
 		prov.scheduleLk.Unlock()
 	}
 	vfAssert(prov.Close() == nil, "sweep/close")
+	if restartKs != nil {
+		vfAssert(restartKs.Close() == nil, "sweep/close") // the caller owns the keystore it supplied
+	}
 	vfWaitIdle()
 	vfAssert(vfLiveGoroutines() == 1, "sweep/close-leaves-no-goroutine")
 	vfAssert(prov.Close() == nil, "sweep/close-may-be-called-again")
